@@ -30,7 +30,9 @@ from harness import imglib as IL
 from harness import pdfwriter as W
 
 LEVEL = "proof"
-RULE = ("documents with one Type0 font and 0-3 image XObjects; the Encoding name, the CMapName of an Encoding stream, "
+RULE = ("documents run through extract_text_to_fp (text/xml/html), extract_text, extract_pages or tools/pdf2txt.py, "
+        "with one Type0 font (optionally embedded FontFile2/FontFile programs) and 0-3 image XObjects of every "
+        "ImageWriter branch (bmp 1/8/24, raw .img, jpg, jb2, the Pillow-only paths); the Encoding name, the CMapName of an Encoding stream, "
         "the usecmap operand of a ToUnicode CMap, CIDSystemInfo Registry/Ordering, BaseFont and the XObject names are "
         "drawn from hostile strings: absolute paths to a planted decoy, ../ chains from either resource directory, "
         "NUL-obfuscated separators, '.', '..', empty, a/b, long (300) names, backslashes, non-UTF-8 bytes, and benign "
@@ -39,8 +41,12 @@ RULE = ("documents with one Type0 font and 0-3 image XObjects; the Encoding name
 TRUSTED_BASE = [
     "hand model lean/PdfVerif/Model/Path.lean (posixpath.join/normpath, CMapDB._load_data file names, "
     "_create_unique_image_name) - compared on every case with os.path and with the paths pdfminer really opens/creates",
-    "sys.addaudithook reports every open()/os.* call of the interpreter (os.stat / os.path.exists raise no audit "
-    "event: probes are only visible when the probed file exists and is then opened - hence the planted decoys)",
+    "sys.addaudithook reports open / os.mkdir,remove,rename,rmdir,link,symlink,truncate,chmod,chown,listdir,scandir,utime,"
+    "mkfifo,mknod / shutil.* / os.system / subprocess.Popen / os.exec* / os.posix_spawn / socket.connect; os.stat, os.lstat "
+    "and os.access (hence os.path.exists/isfile/isdir) raise no audit event and are wrapped in the harness process while a "
+    "case runs, so every existence probe is observed too",
+    "tools/translate/gen_c15.py: the %s.pickle.gz / to-unicode-%s / %s.%d%s literals, the replacement character and the "
+    "presence and position of the confinement guard are re-read from the source on every run (Gen/PathGen.lean)",
     "POSIX semantics of open/exists without symlinks or concurrent writers inside the sandbox tree",
 ]
 ASSUMPTIONS = [
@@ -50,6 +56,8 @@ ASSUMPTIONS = [
 ]
 STATEMENT_STATUS = {
     "C15_cmap_confined": "proved (guarded model = repaired code)",
+    "C15_unicode_map_confined": "proved (Registry-Ordering route through to-unicode-%s)",
+    "C15_cmap_lookup_kept": "proved (names without a separator are still looked up in every directory)",
     "C15_image_confined": "proved (guarded model = repaired code)",
     "C15_no_overwrite": "proved",
     "C15_unique_terminates": "proved (fuel = |existing| + 1)",
@@ -75,6 +83,35 @@ def _hook(event: str, args) -> None:
             _EVENTS.append((event, tuple(a if isinstance(a, (str, bytes, int, type(None))) else repr(a) for a in args)))
         except Exception:  # noqa: BLE001
             _EVENTS.append((event, ("<unprintable>",)))
+
+
+_REAL = {}
+
+
+def _wrap_stat(name):
+    real = getattr(os, name)
+
+    def wrapper(path, *a, **kw):
+        if _ACTIVE[0] and isinstance(path, (str, bytes)):
+            _EVENTS.append(("stat", (path if isinstance(path, str) else path.decode("utf-8", "surrogateescape"), name)))
+        return real(path, *a, **kw)
+    wrapper.__name__ = name
+    return real, wrapper
+
+
+def patch_stat() -> None:
+    """os.stat / os.lstat / os.access raise no audit event: os.path.exists/isfile/isdir probes are made visible by
+    wrapping them in this (the harness') process while a case runs."""
+    for name in ("stat", "lstat", "access"):
+        real, wrapper = _wrap_stat(name)
+        _REAL[name] = real
+        setattr(os, name, wrapper)
+
+
+def unpatch_stat() -> None:
+    for name, real in _REAL.items():
+        setattr(os, name, real)
+    _REAL.clear()
 
 
 def install_hook() -> None:
@@ -148,6 +185,39 @@ def hostile_names(rng, sb_tokens: bool = True) -> List[str]:
     ]
 
 
+# every branch of ImageWriter.export_image: (kind, extension of the file it creates, raises ImportError afterwards?)
+IMG_KINDS = ["bmp8", "bmp8", "bmp1", "bmp24", "raw4", "raw16cmyk", "jpg", "jb2", "pil-flate-cmyk", "pil-jpx", "pil-jpg-cmyk"]
+IMG_EXT = {"bmp8": ".bmp", "bmp1": ".bmp", "bmp24": ".bmp", "raw4": ".4.1x1.img", "raw16cmyk": ".16.1x1.img", "jpg": ".jpg",
+           "jb2": ".jb2", "pil-flate-cmyk": ".jpg", "pil-jpx": ".jp2", "pil-jpg-cmyk": ".jpg"}
+
+
+def image_object(kind: str, i: int, objs: Dict[int, Any]):
+    base = {"Type": "XObject", "Subtype": "Image", "Width": 1, "Height": 1}
+    if kind == "bmp8":
+        return W.Stream(dict(base, BitsPerComponent=8, ColorSpace="DeviceGray", Filter="FlateDecode"), IL.enc_flate(bytes([i + 1])))
+    if kind == "bmp1":
+        return W.Stream(dict(base, BitsPerComponent=1, ColorSpace="DeviceGray"), b"\x80")
+    if kind == "bmp24":
+        return W.Stream(dict(base, BitsPerComponent=8, ColorSpace="DeviceRGB", Filter="ASCIIHexDecode"), b"010203>")
+    if kind == "raw4":
+        return W.Stream(dict(base, BitsPerComponent=4, ColorSpace="DeviceGray"), b"\x50")
+    if kind == "raw16cmyk":
+        return W.Stream(dict(base, BitsPerComponent=16, ColorSpace="DeviceCMYK", Filter=["ASCIIHexDecode"]), b"0102030405060708>")
+    if kind == "jpg":
+        return W.Stream(dict(base, BitsPerComponent=8, ColorSpace="DeviceRGB", Filter="DCTDecode"), b"\xff\xd8\xff\xd9")
+    if kind == "jb2":
+        objs[60 + i] = W.Stream({}, b"")
+        return W.Stream(dict(base, BitsPerComponent=1, ColorSpace="DeviceGray", Filter="JBIG2Decode",
+                             DecodeParms={"JBIG2Globals": W.Ref(60 + i)}), b"")
+    if kind == "pil-flate-cmyk":
+        return W.Stream(dict(base, BitsPerComponent=8, ColorSpace="DeviceCMYK", Filter="FlateDecode"), IL.enc_flate(b"\1\2\3\4"))
+    if kind == "pil-jpx":
+        return W.Stream(dict(base, BitsPerComponent=8, ColorSpace="DeviceRGB", Filter="JPXDecode"), b"\0\0\0\x0cjP  ")
+    if kind == "pil-jpg-cmyk":
+        return W.Stream(dict(base, BitsPerComponent=8, ColorSpace="DeviceCMYK", Filter="DCTDecode"), b"\xff\xd8\xff\xd9")
+    raise ValueError(kind)
+
+
 IMAGE_NAMES = [
     "Im0", "X", "../victim/pwn", "{ROOT}/victim/abs", "../out/../victim/deep", "a/b", "..", ".", "keep", "Im0", "Im0",
     "../victim/keep", "sub\x00name", "..\x00/victim/nul", "A" * 300, "\\..\\victim\\bs", "%s%d", "Im 0", "\xe9",
@@ -177,7 +247,10 @@ def gen_case(rng) -> Dict[str, Any]:
         "images": [rng.choice(IMAGE_NAMES) for _ in range(rng.choice([0, 1, 1, 2, 3]))],
         "pre": rng.choice([[], ["Im0.bmp"], ["Im0.bmp", "Im0.0.bmp"], ["X.bmp", "keep.bmp"], ["Im0.bmp", "Im0.1.bmp"]]),
         "output_type": rng.choice(["text", "text", "xml", "html"]),
+        "entry": rng.choice(["to_fp", "to_fp", "to_fp", "pdf2txt", "extract_text", "extract_pages"]),
+        "fontfile": rng.random() < 0.3,
     }
+    case["imgkinds"] = [rng.choice(IMG_KINDS) for _ in case["images"]]
     if flow == "registry" and rng.random() < 0.5:
         case["registry"] = rng.choice(["good", "x/../../decoy/evil", "../decoy/evil", "{ROOT}/decoy/evil", "x/../good"])
         case["ordering"] = "Z"
@@ -220,11 +293,23 @@ def build_pdf(case: Dict[str, Any], sb: Sandbox) -> bytes:
         name = f(nm)
         if name not in seen:
             seen.add(name)
-            objs[40 + i] = W.Stream({"Type": "XObject", "Subtype": "Image", "Width": 1, "Height": 1, "BitsPerComponent": 8,
-                                     "ColorSpace": "DeviceGray", "Filter": "FlateDecode"}, IL.enc_flate(bytes([i + 1])))
+            kinds = case.get("imgkinds") or []
+            objs[40 + i] = image_object(kinds[i] if i < len(kinds) else "bmp8", i, objs)
             xo[name_obj(name)] = W.Ref(40 + i)
         content += b"q 10 0 0 10 %d 20 cm " % (20 * i) + W.ser(name_obj(name)) + b" Do Q\n"
     res: Dict[str, Any] = {"Font": {"F1": W.Ref(20)}}
+    if case.get("fontfile"):
+        # embedded font programs with hostile font names: FontFile2 on the CID font, FontFile on a Type1 font
+        objs[23] = W.Stream({"Length1": 12}, b"\0" * 12)
+        objs[22]["FontFile2"] = W.Ref(23)
+        objs[24] = {"Type": "Font", "Subtype": "Type1", "BaseFont": name_obj(f(case["basefont"])), "FirstChar": 65,
+                    "LastChar": 65, "Widths": [500], "FontDescriptor": W.Ref(25)}
+        objs[25] = {"Type": "FontDescriptor", "FontName": name_obj(f(case["basefont"])), "Flags": 32,
+                    "FontBBox": [0, 0, 1000, 1000], "ItalicAngle": 0, "Ascent": 800, "Descent": -200, "CapHeight": 700,
+                    "StemV": 80, "FontFile": W.Ref(26)}
+        objs[26] = W.Stream({"Length1": 20, "Length2": 0, "Length3": 0}, b"%!PS-AdobeFont-1.0\n/Encoding StandardEncoding def\n")
+        res["Font"]["F2"] = W.Ref(24)
+        content += b"BT /F2 12 Tf 50 650 Td (A) Tj ET\n"
     if xo:
         res["XObject"] = xo
     return W.simple_doc(content, resources=res, extra_objs=objs)
@@ -242,9 +327,11 @@ def run_impl(case: Dict[str, Any]):
     try:
         # safety net of the harness itself: even the UNREPAIRED code must not be able to write outside the sandbox
         case = dict(case)
-        case["images"] = [n for n in case["images"]
-                          if os.path.normpath(os.path.join(sb.out, fill(n, sb).replace("\x00", "") + ".bmp"))
-                          .startswith(sb.root + "/")]
+        kinds = list(case.get("imgkinds") or ["bmp8"] * len(case["images"]))
+        keep = [i for i, n in enumerate(case["images"])
+                if os.path.normpath(os.path.join(sb.out, fill(n, sb).replace("\x00", "") + ".bmp")).startswith(sb.root + "/")]
+        case["images"] = [case["images"][i] for i in keep]
+        case["imgkinds"] = [kinds[i] for i in keep if i < len(kinds)]
         pdf = build_pdf(case, sb)
         CMapDB._cmap_cache.clear()
         CMapDB._umap_cache.clear()
@@ -252,15 +339,37 @@ def run_impl(case: Dict[str, Any]):
         before = sb.snapshot()
         out = io.BytesIO()
         exc = None
+        entry = case.get("entry", "to_fp")
+        inpath = os.path.join(sb.root, "in.pdf")
+        respath = os.path.join(sb.root, "result.out")
+        if entry == "pdf2txt":
+            with open(inpath, "wb") as fp:
+                fp.write(pdf)
+            before = sb.snapshot()
+        patch_stat()
         del _EVENTS[:]
         _ACTIVE[0] = True
         try:
-            extract_text_to_fp(io.BytesIO(pdf), out, output_type=case.get("output_type", "text"), codec="utf-8",
-                               output_dir=sb.out)
+            if entry == "to_fp":
+                extract_text_to_fp(io.BytesIO(pdf), out, output_type=case.get("output_type", "text"), codec="utf-8",
+                                   output_dir=sb.out)
+            elif entry == "extract_text":
+                from pdfminer.high_level import extract_text
+                extract_text(io.BytesIO(pdf))
+            elif entry == "extract_pages":
+                from pdfminer.high_level import extract_pages
+                for _ in extract_pages(io.BytesIO(pdf)):
+                    pass
+            else:
+                mod = load_pdf2txt()
+                fp2 = mod.extract_text(files=[inpath], outfile=respath, output_type=case.get("output_type", "text"),
+                                       output_dir=sb.out)
+                fp2.close()
         except Exception as e:  # noqa: BLE001
             exc = type(e).__name__
         finally:
             _ACTIVE[0] = False
+            unpatch_stat()
         events = list(_EVENTS)
         after = sb.snapshot()
         created = sorted(p for p in after if p not in before)
@@ -268,7 +377,11 @@ def run_impl(case: Dict[str, Any]):
         removed = sorted(p for p in before if p not in after)
         opens = []
         other = []
+        stats = []
         for ev, args in events:
+            if ev == "stat":
+                stats.append(os.path.normpath(args[0]) if os.path.isabs(args[0]) else os.path.realpath(args[0]))
+                continue
             if ev == "open":
                 p = args[0]
                 if isinstance(p, bytes):
@@ -277,7 +390,7 @@ def run_impl(case: Dict[str, Any]):
                     opens.append((os.path.realpath(p) if not os.path.isabs(p) else os.path.normpath(p), args[1]))
             else:
                 other.append((ev, args[:2]))
-        return {"opens": opens, "other": other, "created": created, "changed": changed, "removed": removed, "exc": exc,
+        return {"stats": stats, "inpath": inpath, "respath": respath, "opens": opens, "other": other, "created": created, "changed": changed, "removed": removed, "exc": exc,
                 "root": sb.root, "out": sb.out, "rsrc": sb.rsrc, "after": after, "pdf_len": len(pdf)}
     finally:
         if old_env is None:
@@ -287,6 +400,20 @@ def run_impl(case: Dict[str, Any]):
         CMapDB._cmap_cache.clear()
         CMapDB._umap_cache.clear()
         sb.close()
+
+
+_PDF2TXT = []
+
+
+def load_pdf2txt():
+    """tools/pdf2txt.py of the repository under test (the command line entry point)."""
+    if not _PDF2TXT:
+        import importlib.util
+        spec = importlib.util.spec_from_file_location("verif_pdf2txt", os.path.join(C.REPO, "tools", "pdf2txt.py"))
+        mod = importlib.util.module_from_spec(spec)
+        spec.loader.exec_module(mod)
+        _PDF2TXT.append(mod)
+    return _PDF2TXT[0]
 
 
 def is_import_noise(p: str) -> bool:
@@ -304,6 +431,8 @@ def judge(case: Dict[str, Any], r: Dict[str, Any]) -> Optional[Tuple[str, Any, A
             continue
         d = os.path.dirname(p)
         writing = isinstance(mode, str) and any(ch in mode for ch in "wax+")
+        if (p == r["inpath"] and not writing) or (p == r["respath"] and writing):
+            continue          # the input file and the result file the CALLER named (pdf2txt entry point)
         if d in (rsrc, cdir) and not writing:
             continue
         if d == out and writing:
@@ -314,7 +443,19 @@ def judge(case: Dict[str, Any], r: Dict[str, Any]) -> Optional[Tuple[str, Any, A
                     p.replace(root, "{ROOT}"), dict(tags, kind="write-outside"))
         return ("a file outside the CMap resource directories was opened", "only <resource dir>/<name>.pickle.gz",
                 p.replace(root, "{ROOT}"), dict(tags, kind="read-outside"))
+    for p in r["stats"]:
+        if is_import_noise(p) or p in (out, r["inpath"], r["respath"], root):
+            continue
+        d = os.path.dirname(p)
+        if d in (rsrc, cdir, out) or p in (rsrc, cdir):
+            continue
+        if p.startswith(root + "/") or p.endswith(".pickle.gz") or p.endswith((".bmp", ".jpg", ".img", ".jb2", ".jp2")):
+            return ("the existence of a file outside the resource / output directories was probed",
+                    "only <resource dir>/<name>.pickle.gz and <output_dir>/<name>", p.replace(root, "{ROOT}"),
+                    dict(tags, kind="probe-outside", opened=p.replace(root, "{ROOT}")))
     for p in r["created"]:
+        if p == r["respath"]:
+            continue
         if os.path.dirname(p.rstrip("/")) != out or p.endswith("/"):
             return ("a file was created outside output_dir", "only files directly in output_dir", p.replace(root, "{ROOT}"),
                     dict(tags, kind="create-outside"))
@@ -404,15 +545,22 @@ def check_case(ctx: C.Ctx, case: Dict[str, Any], lines, impl, inputs, shrink: bo
         probe_lines.append("cmap %s,%s %s" % (hexs(dirs[0]), hexs(dirs[1]), hexs(n)))
     obs = [p for p, mode in r["opens"] if p.endswith(".pickle.gz")]
     inputs.append(("cmap-opens", {"case": case, "loads": [n.replace(root, "{ROOT}") for n in loads]}))
-    lines.append(("probes", probe_lines, loads, root, r["after"]))
+    lines.append(("probes", probe_lines, loads, root, r["after"],
+                  [p for p in r["stats"] if p.endswith(".pickle.gz")]))
     impl.append([p for p in obs])
     # ---- tie: image names ----
     existing = list(case.get("pre", []))
     created_model_lines = []
-    for nm in case["images"]:
-        created_model_lines.append((fill_root(nm, root), ".bmp"))
+    kinds = case.get("imgkinds") or ["bmp8"] * len(case["images"])
+    first_kind: Dict[str, str] = {}
+    if case.get("entry", "to_fp") in ("to_fp", "pdf2txt"):
+        for i, nm in enumerate(case["images"]):
+            kind = first_kind.setdefault(nm, kinds[i] if i < len(kinds) else "bmp8")   # a repeated name reuses the object
+            created_model_lines.append((fill_root(nm, root), IMG_EXT[kind], kind.startswith("pil-")))
+            ctx.branch("imgkind:" + kind)
+    ctx.branch("entry:" + case.get("entry", "to_fp"))
     lines.append(("images", created_model_lines, existing, r["out"]))
-    impl.append(sorted(os.path.relpath(p, root) for p in r["created"] if not p.endswith("/")))
+    impl.append(sorted(os.path.relpath(p, root) for p in r["created"] if not p.endswith("/") and p != r["respath"]))
     inputs.append(("image-paths", {"case": case}))
     r.pop("after", None)
 
@@ -438,8 +586,9 @@ def resolve_ties(ctx: C.Ctx, lines, impl, inputs) -> None:
     img_index: List[Tuple[int, int]] = []
     for idx, item in enumerate(lines):
         if item[0] == "probes":
-            _, plines, loads, root, after = item
+            _, plines, loads, root, after, obs_stats = item
             predicted: List[str] = []
+            exp_stats: List[str] = []
             loaded = set()          # CMapDB caches a CMap by name once it has been loaded successfully
             for n_load in loads:
                 reply = outs[k]
@@ -450,12 +599,18 @@ def resolve_ties(ctx: C.Ctx, lines, impl, inputs) -> None:
                 # the first probe that exists (in the sandbox snapshot or on the real cmap dir) is opened
                 for p in probes:
                     q = os.path.normpath(p)
+                    exp_stats.append(q)
                     if q in after or os.path.exists(q):
                         # python resolves the path physically; every intermediate directory must exist
                         if physically_exists(p, after):
                             predicted.append(q)
                             loaded.add(n_load)
                             break
+            # every path handed to os.path.exists (made visible by the os.stat wrapper), in order
+            ctx.branch("tie:cmap-probes=%d" % min(len(exp_stats), 4))
+            if exp_stats != obs_stats:
+                ctx.disagree("cmap-probes", inputs[idx][1], [p.replace(root, "{ROOT}") for p in obs_stats],
+                             [p.replace(root, "{ROOT}") for p in exp_stats])
             ctx.branch("tie:cmap-opens-predicted=%d" % len(predicted))
             if predicted != impl[idx]:
                 ctx.disagree("cmap-opens", inputs[idx][1], [p.replace(root, "{ROOT}") for p in impl[idx]],
@@ -475,7 +630,7 @@ def resolve_ties(ctx: C.Ctx, lines, impl, inputs) -> None:
             if st["done"] or rnd >= len(st["specs"]):
                 st["done"] = True
                 continue
-            nm, ext = st["specs"][rnd]
+            nm, ext, aborts = st["specs"][rnd]
             batch.append("image %s %s %s %s" % (hexs(st["outdir"]), hexs(nm), hexs(ext),
                                                 ",".join(hexs(x) for x in st["cur"]) or "-"))
             owners.append(st)
@@ -494,6 +649,8 @@ def resolve_ties(ctx: C.Ctx, lines, impl, inputs) -> None:
                 continue
             st["cur"].append(name)
             st["created"].append(os.path.relpath(os.path.normpath(path), os.path.dirname(st["outdir"])))
+            if st["specs"][rnd][2]:
+                st["done"] = True      # the file exists, then Pillow is missing: ImportError ends the run
         rnd += 1
     for st in states:
         idx = st["idx"]
